@@ -18,6 +18,8 @@ def _selector(kind, a, b, c):
         return Slice.Slice(None, None, None)
     if kind == 1:
         return Slice.Slice(a, b, c)
+    if kind == 3:
+        return Slice.Slice(None, None, -c)      # reverse order
     return Slice.Sample(c)
 
 
@@ -26,6 +28,8 @@ def _indices(kind, a, b, c, n):
         return list(range(n))
     if kind == 1:
         return list(range(n))[a:b:c]
+    if kind == 3:
+        return list(range(n))[::-c]
     return Slice.Sample(c).indices(n)      # which frames a sample picks is C15
 
 
@@ -88,8 +92,8 @@ def _known_first_step(kind, a, b, c, n):
     """first() and step() of the selectors as documented (Python slice semantics; Sample: step n // size, or 1)."""
     if kind == 0:
         return 0, 1
-    if kind == 1:
-        start, stop, step = slice(a, b, c).indices(n)
+    if kind in (1, 3):
+        start, stop, step = (slice(a, b, c) if kind == 1 else slice(None, None, -c)).indices(n)
         return start, step
     return 0, (1 if c >= n else n // c)
 
@@ -98,8 +102,8 @@ def _known_last(kind, a, b, c, n):
     """The index Slice.last / Sample.last return today (known finding slice_last_not_last_selected), written out from its description."""
     if kind == 0:
         return n - 1
-    if kind == 1:
-        start, stop, step = slice(a, b, c).indices(n)
+    if kind in (1, 3):
+        start, stop, step = (slice(a, b, c) if kind == 1 else slice(None, None, -c)).indices(n)
         return n - 1 if n < stop else step * (stop // step) - 1
     return n - 1 if c >= n else n - c
 
@@ -114,6 +118,14 @@ def _rp66(order, kind, a, b, c, m1, m2, again=False):
     for ftype in range(2 if 1 in o else 1):
         if len(_indices(kind, a, b, c, len(model[ftype]))) == 0:
             return True         # a selector that selects no frame of a log pass: outside the claim (the converter reports a failure)
+    if EXCL('rp66v1_tolas_stop_from_slice_last'):
+        # the documented last-index formula can name a frame that does not exist (e.g. one frame, reverse order: index -2): the lookup of STOP
+        # then fails and so does the conversion - part of the listed finding, nothing further to decide for that case
+        for ftype in range(2 if 1 in o else 1):
+            nfr = len(model[ftype])
+            kl = _known_last(kind, a, b, c, nfr)
+            if not (-nfr <= kl < nfr):
+                return True
     tmp = tempfile.mkdtemp(prefix='verif_c11_')
     try:
         pin = os.path.join(tmp, 'in.dlis')
@@ -161,10 +173,8 @@ def _rp66(order, kind, a, b, c, m1, m2, again=False):
             if EXCL('rp66v1_tolas_stop_from_slice_last'):
                 # listed finding, tolerated exactly: STOP is the X of the frame the documented (wrong) last-index formula names, STEP follows from it
                 kl = _known_last(kind, a, b, c, len(frames))
-                if 0 <= kl < len(xs):
-                    well = (xs[sel[0]], xs[kl], (xs[kl] - xs[sel[0]]) / (len(sel) - 1) if len(sel) > 1 else None)
-                else:
-                    well = (xs[sel[0]], None, None)
+                # (a negative index counts from the end, as the list lookup in the converter does)
+                well = (xs[sel[0]], xs[kl], (xs[kl] - xs[sel[0]]) / (len(sel) - 1) if len(sel) > 1 else None)
             if not _check_las(las, xs, cols, names, sel, 0.0005, well):
                 return False
         return True
@@ -174,13 +184,13 @@ def _rp66(order, kind, a, b, c, m1, m2, again=False):
 
 def rp66v1_to_las(order: int, kind: int, a: int, b: int, c: int, m1: bool, m2: bool, again: bool = False) -> bool:
     """
-    pre: 0 <= order <= 4 and 0 <= kind <= 2 and -2 <= a <= 2 and b in (-1, 2, 3, 5) and 1 <= c <= 3
+    pre: 0 <= order <= 4 and 0 <= kind <= 3 and -2 <= a <= 2 and b in (-1, 2, 3, 5) and 1 <= c <= 3
     pre: kind == 1 or (a == 0 and b == 2)
     pre: kind != 0 or c == 1
-    pre: PART < 0 or order * 3 + kind == PART
+    pre: PART < 0 or order * 4 + kind == PART
     post: _
     """
-    order, kind, a, b, c = mark.pick(order, 0, 4), mark.pick(kind, 0, 2), mark.pick(a, -2, 2), mark.pick_from(b, (-1, 2, 3, 5)), mark.pick(c, 1, 3)
+    order, kind, a, b, c = mark.pick(order, 0, 4), mark.pick(kind, 0, 3), mark.pick(a, -2, 2), mark.pick_from(b, (-1, 2, 3, 5)), mark.pick(c, 1, 3)
     m1, m2, again = mark.pickb(m1), mark.pickb(m2), mark.pickb(again)
     with mark.untraced():
         return _rp66(order, kind, a, b, c, m1, m2, again)
